@@ -83,9 +83,9 @@ class MonteCarloSettings:
 
     def use_mode_with_confidence(self, confidence=None):
         """Use the mode of the distribution with a confidence coverage for this value"""
-        self.__settings[lit.MONTE_CARLO_STRATEGY] = lit.MC_MODE_AND_CONFIDENCE
         if confidence:
-            self.confidence = confidence
+            self.confidence = confidence  # validated first: a rejected level changes nothing
+        self.__settings[lit.MONTE_CARLO_STRATEGY] = lit.MC_MODE_AND_CONFIDENCE
 
     def use_mean_and_std(self):
         """Use the mean and std of the distribution for this value"""
@@ -99,13 +99,15 @@ class MonteCarloSettings:
         use this method to manually set these values.
 
         """
-        self.__settings[lit.MONTE_CARLO_STRATEGY] = lit.MC_CUSTOM
         if not isinstance(value, Real):
             raise TypeError("Cannot assign a {} to the value!".format(type(value).__name__))
         if not isinstance(error, Real):
             raise TypeError("Cannot assign a {} to the error!".format(type(error).__name__))
         if error < 0:
             raise ValueError("The error must be a positive real number!")
+        # the strategy is switched only once the pair is known to be valid: a rejected request
+        # leaves the strategy, and so the reported value and uncertainty, as they were
+        self.__settings[lit.MONTE_CARLO_STRATEGY] = lit.MC_CUSTOM
         self.__evaluator.values[self.strategy] = dt.ValueWithError(value, error)
 
     @property
